@@ -951,18 +951,22 @@ class CollapseCollector(WrappingCollector):
         limit = self.limit
         counters = defaultdict(int)
 
-        for subsearcher, offset in child.subsearchers():
-            self.set_subsearcher(subsearcher, offset)
-            matcher = child.matcher
-            keyer = self.keyer
-            for sub_docnum in child.matches():
-                ckey = keyer.key_for(matcher, sub_docnum)
-                if ckey is not None:
-                    if ckey in counters and counters[ckey] >= limit:
+        # The child collector may have skipped documents, so make a separate
+        # (unscored) pass over all matching documents
+        keyer = self.keyer
+        for subsearcher, offset in self.top_searcher.leaf_searchers():
+            keyer.set_searcher(subsearcher, offset)
+            matcher = child.q.matcher(subsearcher, child.context)
+            while matcher.is_active():
+                sub_docnum = matcher.id()
+                ckey = keyer.key_to_name(keyer.key_for(matcher, sub_docnum))
+                if ckey:
+                    if counters[ckey] >= limit:
+                        matcher.next()
                         continue
-                    else:
-                        counters[ckey] += 1
+                    counters[ckey] += 1
                 yield offset + sub_docnum
+                matcher.next()
 
     def count(self):
         if self.child.computes_count():
